@@ -86,16 +86,36 @@ pub fn parse_attr(s: &str) -> syn::Attribute {
 impl SettingsSpec {
     pub fn build(&self) -> TypeGeneratorSettings {
         let mut s = TypeGeneratorSettings::new().type_mod_name(&self.root);
-        s.should_gen_docs = self.docs;
-        s.insert_codec_attributes = self.codec;
+        // Both ways of configuring are public API: the builder methods and the public fields. Which one a spec
+        // uses is a function of the spec (so that a replay builds the same settings).
+        let via_builder = (self.root.len() + self.global_derives.len() + self.global_attrs.len()) % 2 == 0;
+        if via_builder {
+            s = s.should_gen_docs(self.docs);
+            if self.codec {
+                s = s.insert_codec_attributes();
+            }
+            if let Some(p) = &self.compact_path {
+                s = s.compact_type_path(syn::parse_str(p).unwrap());
+            }
+            if let Some(p) = &self.bits_path {
+                s = s.decoded_bits_type_path(syn::parse_str(p).unwrap());
+            }
+            if let Some(p) = &self.compact_as {
+                s = s.compact_as_type_path(syn::parse_str(p).unwrap());
+            }
+            s = s.add_derives_for_all(self.global_derives.iter().map(|d| syn::parse_str(d).unwrap()));
+        } else {
+            s.should_gen_docs = self.docs;
+            s.insert_codec_attributes = self.codec;
+            s.compact_type_path = self.compact_path.as_ref().map(|p| syn::parse_str(p).unwrap());
+            s.decoded_bits_type_path = self.bits_path.as_ref().map(|p| syn::parse_str(p).unwrap());
+            s.compact_as_type_path = self.compact_as.as_ref().map(|p| syn::parse_str(p).unwrap());
+            s.derives
+                .add_derives_for_all(self.global_derives.iter().map(|d| syn::parse_str(d).unwrap()));
+        }
         if let Some(a) = &self.alloc {
             s.alloc_crate_path = AllocCratePath::Custom(syn::parse_str(a).expect("alloc path"));
         }
-        s.compact_type_path = self.compact_path.as_ref().map(|p| syn::parse_str(p).unwrap());
-        s.decoded_bits_type_path = self.bits_path.as_ref().map(|p| syn::parse_str(p).unwrap());
-        s.compact_as_type_path = self.compact_as.as_ref().map(|p| syn::parse_str(p).unwrap());
-        s.derives
-            .add_derives_for_all(self.global_derives.iter().map(|d| syn::parse_str(d).unwrap()));
         s.derives
             .add_attributes_for_all(self.global_attrs.iter().map(|a| parse_attr(a)));
         for r in &self.specific {
@@ -115,9 +135,13 @@ impl SettingsSpec {
         for (src, dst) in &self.substitutes {
             let sp: syn::Path = syn::parse_str(src).expect("substitute source");
             let dp: syn::Path = syn::parse_str(dst).expect("substitute target");
-            s.substitutes
-                .insert(sp, absolute_path(dp).expect("absolute target"))
-                .expect("valid substitute");
+            if via_builder {
+                s = s.substitute(sp, dp);
+            } else {
+                s.substitutes
+                    .insert(sp, absolute_path(dp).expect("absolute target"))
+                    .expect("valid substitute");
+            }
         }
         s
     }
